@@ -26,6 +26,7 @@ struct kfd {
 	int nonblock;
 	int cloexec;
 	int by_lib;		/* created by library code (leak accounting) */
+	int creator;		/* thread that created it */
 	/* K_GENERIC ground truth, may be solver unknowns (0/1) */
 	long rd, wr, hup, err;
 };
@@ -96,6 +97,7 @@ extern int k_order_choice;		/* fork over the order of returned events */
 extern const char *k_env_exclude;	/* value of IV_EXCLUDE_POLL_METHOD or NULL */
 extern int k_epoll_ctl_fail_fd;		/* epoll_ctl ADD on this fd fails with EPERM (-1: none) */
 extern int k_nofile_limit;
+extern int k_sched_all;			/* 1: every modelled call is a scheduling point; 0: only calls on objects another thread can observe */
 
 /* ---- hooks (function pointers, NULL = default behaviour) ---- */
 struct kwait_info {
